@@ -1,4 +1,5 @@
 mod codec;
+mod deflate;
 mod gen;
 mod util;
 
@@ -20,6 +21,11 @@ fn main() {
         "codec-record" => codec::record(&args),
         "codec-record-streams" => codec::record_streams(&args),
         "codec-record-case" => codec::record_case(&args),
+        "deflate-replay" => deflate::replay(&args),
+        "deflate-record" => deflate::record(&args),
+        "deflate-trace-generated" => deflate::trace_generated(&args),
+        "deflate-replay-hex" => deflate::replay_hex(&args),
+        "deflate-short" => deflate::exhaustive_short(&args),
         other => {
             eprintln!("unknown subcommand {}", other);
             2
